@@ -39,6 +39,7 @@ func redisStackRace() {
 	go func() { p.u.Serve(); close(served) }()
 	keys := []string{cl.KeyInGroup("k", 0, 0), cl.KeyInGroup("k", 1, 0), cl.KeyInGroup("j", 0, 1), cl.KeyInGroup("j", 1, 1)}
 	big := string(c13pattern("run", 300))
+	huge := string(c13pattern("rnd", 40000)) // (length headers and integers beyond the encoder's small-number table)
 	var wg sync.WaitGroup
 	var sessions sync.WaitGroup
 	for ci := 0; ci < 3; ci++ {
@@ -51,9 +52,10 @@ func redisStackRace() {
 		go func() {
 			defer wg.Done()
 			defer c.Close()
-			for i := 0; i < 12; i++ {
+			for i := 0; i < 16; i++ {
 				k := keys[(i+ci)%len(keys)]
-				cmds := [][]string{{"SET", k, big}, {"GET", k}, {"MGET", keys[0], keys[1], keys[2]}, {"INCR", "n" + k}, {"DEL", keys[3], keys[2]}, {"HSET", "h" + k, "f", big}, {"HGETALL", "h" + k}, {"PING"}, {"HOTKEY"}, {"SCAN", "0"}, {"APPEND", k, "x"}}
+				cmds := [][]string{{"SET", k, big}, {"GET", k}, {"MGET", keys[0], keys[1], keys[2]}, {"INCR", "n" + k}, {"DEL", keys[3], keys[2]}, {"HSET", "h" + k, "f", big}, {"HGETALL", "h" + k}, {"PING"}, {"HOTKEY"}, {"SCAN", "0"}, {"APPEND", k, "x"},
+					{"SET", "big" + k, huge}, {"GET", "big" + k}, {"INCRBY", "n" + k, "100000"}, {"STRLEN", "big" + k}}
 				// alternate between one command at a time and a pipeline of three
 				if i%2 == 0 {
 					if _, err := c.Do(cmds[i%len(cmds)]...); err != nil {
